@@ -17,7 +17,7 @@ MECHANISM = ["circuit.add", "circuit.connect", "circuit.uid", "circuit.add_black
              "circuit.fill_blackbox"]
 RULE = ("BFS: state = canonical (nodes with type/output, edges, registry) + history variable 'pins removed by the caller'; "
         "states are counted per first-operation partition (a state reachable in two partitions counts twice); "
-        "non-trivial = states reached through at least one rejected (raising) call or holding a blackbox")
+        "non-trivial = every state other than a seed state (reached by at least one API call)")
 ASSUMPTIONS = ["exception class is demanded (ValueError) for add / connect / add_blackbox / add_subcircuit / fill_blackbox only; "
                "set_output, remove and disconnect on missing names follow networkx semantics and are not judged",
                "a node left behind by a rejected add is not a violation (the property speaks of edges)"]
@@ -285,6 +285,7 @@ class Model:
         acc.observe(op, common.exc_name(exc) if exc else None)
 
     def on_state(self, c, hist, trace):
+        self.last_trace = trace
         for mode, detail in invariant(c, hist):
             self.acc.violation("state", mode, {"kind": "trace", "trace": trace}, detail)
 
@@ -306,7 +307,7 @@ def run_core(job):
     acc.nontrivial = st["states"] - 1
     acc.extra["core_alphabet_size"] = len(ops)
     acc.extra["core_states_by_depth"] = {f"seed{job['seed_idx']}": st["by_depth"]}
-    acc.sample({"seed": desc, "ops_sample": ops[:3], "depth": job["depth"]})
+    acc.sample({"trace_of_last_state_explored": getattr(model, "last_trace", None), "depth": job["depth"]})
     return acc.result()
 
 
@@ -343,7 +344,7 @@ def run(job):
     acc.extra["max_depth"] = 1 + st["max_depth"]
     acc.nontrivial += sum(1 for _ in range(0))  # placeholder, set below
     acc.nontrivial = st["states"] - st["by_depth"].get(0, 0)
-    acc.sample({"seed": seeds[0][0] if seeds else None, "ops_sample": ops[:3]})
+    acc.sample({"trace_of_last_state_explored": getattr(model, "last_trace", None), "alphabet_sample": ops[:3]})
     if st.get("capped"):
         acc.capped = True
     return acc.result()
